@@ -33,7 +33,7 @@ EXPORT void reim4_from_cplx_ref(const REIM4_FROM_CPLX_PRECOMP* tables, double* r
 }
 
 void* init_reim4_from_cplx_precomp(REIM4_FROM_CPLX_PRECOMP* res, uint32_t nn) {
-  res->m = nn / 2;
+  res->m = nn;  // the argument is the complex dimension m, as for init_reim4_to_cplx_precomp
   if (CPU_SUPPORTS("fma")) {
     if (nn >= 4) {
       res->function = reim4_from_cplx_fma;
